@@ -1,6 +1,7 @@
 package props
 
 import (
+	"verif/internal/gen"
 	"verif/internal/harness"
 )
 
@@ -36,6 +37,7 @@ func runWalksOpt(c *harness.Ctx, walks int, o WalkOpts, enabled ...string) {
 }
 
 func init() {
+	harness.ExtraNotes = func() []string { return gen.SetupFailures }
 	harness.Register(&harness.Property{
 		ID: "DEV", Level: "exploration", Rule: "dev: all monitors on walks",
 		Batches: walkBatches(8, 16),
